@@ -238,6 +238,7 @@ func TestVerifRecC10(t *testing.T) {
 		if err == nil {
 			enc, _ := p.MarshalBinary()
 			e["out"] = vb(enc)
+			vpt(e, &p) // all four coordinates: the result must be a valid extended point (T = XY/Z), not only encode correctly
 		}
 		w.emit(e)
 	}
@@ -253,15 +254,47 @@ func TestVerifRecC10(t *testing.T) {
 		copy(b, ED25519_BASEPOINT_COMPRESSED[:])
 		unmarshal(b)
 	}
+	scaleWith := func(p *EdwardsPoint, l *field.Element) {
+		p.inner.X.Mul(&p.inner.X, l)
+		p.inner.Y.Mul(&p.inner.Y, l)
+		p.inner.Z.Mul(&p.inner.Z, l)
+		p.inner.T.Mul(&p.inner.T, l)
+	}
+	var two field.Element
+	two.Add(&field.One, &field.One)
 	for _, tp := range EIGHT_TORSION {
-		for k := 0; k < 3; k++ {
+		// torsion points in fixed scalings (1, -1, 2) and a random one: the specification decides these without a long
+		// multiplication (a small-order point is torsion free iff it is the identity)
+		for k := 0; k < 4; k++ {
 			var p EdwardsPoint
 			p.Set(tp)
-			if k > 0 {
+			switch k {
+			case 1:
+				scaleWith(&p, &field.MinusOne)
+			case 2:
+				scaleWith(&p, &two)
+			case 3:
 				g.scale(&p)
 			}
-			preds(&p, k == 0)
+			preds(&p, true)
 		}
+	}
+	// the identity and other torsion points as they come out of computations (not in affine form)
+	for i := 0; i < 8; i++ {
+		a := g.point()
+		var na, o EdwardsPoint
+		na.Neg(a)
+		g.scale(&na)
+		o.Add(a, &na)
+		preds(&o, true)
+		var t8, t4 EdwardsPoint
+		t8.MulByCofactor(EIGHT_TORSION[i])
+		preds(&t8, true)
+		t4.Add(EIGHT_TORSION[i], EIGHT_TORSION[(i+3)%8])
+		preds(&t4, true)
+		var s EdwardsPoint
+		s.Sub(a, a)
+		preds(&s, true)
 	}
 	// special u-coordinates, both settings of bit 255, both signs
 	pm := []byte{0xed, 0xff, 0xff, 0xff, 0xff, 0xff, 0xff, 0xff, 0xff, 0xff, 0xff, 0xff, 0xff, 0xff, 0xff, 0xff, 0xff, 0xff, 0xff, 0xff, 0xff, 0xff, 0xff, 0xff, 0xff, 0xff, 0xff, 0xff, 0xff, 0xff, 0xff, 0x7f}
